@@ -56,8 +56,8 @@ impl std::fmt::Display for Ipv4Subnet {
 impl Ipv4Subnet {
     pub fn new(addr: std::net::Ipv4Addr, prefixlen: u8) -> Result<Self, Error> {
         let ret = Self { addr, prefixlen };
-        /* If the prefix is too short, then return an error */
-        if u32::from(ret.addr) & !u32::from(ret.netmask()) != 0 {
+        /* If the prefix is too long, or too short for the address, then return an error */
+        if prefixlen > 32 || u32::from(ret.addr) & !u32::from(ret.netmask()) != 0 {
             Err(Error::InvalidSubnet)
         } else {
             Ok(ret)
